@@ -82,8 +82,9 @@ def planner_s2i(ctx, replay_path, invs, variants=2, parallel=True, keep=150):
 
 def planner_i2s(ctx, invs, count, nmin, nmax, nres, variants=1, extra=(), parallel=True, seed_off=0):
     out = ctx.fresh("i2s", "ndjson")
+    # a few ill-formed calls everywhere: a rejected call must change nothing for what follows
     st = run_bin(ctx, "planner", ["random", "--seed", ctx.seed * 1000 + seed_off, "--count", count, "--nmin", nmin,
-                                  "--nmax", nmax, "--nres", nres, "--variants", variants, "--out", out] + list(extra),
+                                  "--nmax", nmax, "--nres", nres, "--variants", variants, "--out", out] + list(extra) + ["--pill", 0.04],
                  parallel=parallel)
     ctx.cov["impl_runs"].append({"kind": "impl->spec random registration traces", "programs": st["programs"],
                                  "variants": st["variants"], "systems": st["systems"], "events": st["events"],
